@@ -241,6 +241,59 @@ theorem evalReqs_effect {t t' : T} {id : Id} {lvl : Nat} {counts : Bool} {rs : L
         have := EvalEffect.comp e1 e2
         simpa [Nat.add_comm] using this
 
+/-- the invocation logged while one request is served (if any) is the returned individual -/
+theorem evalReq_logged {t t' : T} {id : Id} {lvl : Nat} {counts : Bool} {r : Req} {i : Ind}
+    (h : evalReq t id lvl counts r = .ok (t', i)) :
+    ∃ invs : List Inv, t'.log = t.log ++ invs ∧ ∀ j ∈ invs, j.deme = id ∧ (⟨j.x, j.v⟩ : Ind) = i := by
+  unfold evalReq at h
+  split at h
+  · simp at h
+  · rename_i lc hlc
+    split at h
+    · simp at h
+    · unfold evalReqCore at h
+      split at h
+      · simp at h
+      · simp only [Except.ok.injEq, Prod.mk.injEq] at h
+        obtain ⟨rfl, rfl⟩ := h
+        split
+        · refine ⟨[⟨lvl, id, r.x, (Problem.evalStack t.cfg.maximize (t.stacks.getD lc.stack [])
+            (r.v.getD (Fit.sentinel t.cfg.maximize))).2.1⟩], ?_, ?_⟩
+          · cases counts <;> simp [T.update]
+          · simp
+        · refine ⟨[], ?_, by simp⟩
+          cases counts <;> simp [T.update]
+
+/-- every invocation logged while a list of requests is served is one of the returned
+evaluated individuals (same point, same value), issued by this deme -/
+theorem evalReqs_logged {t t' : T} {id : Id} {lvl : Nat} {counts : Bool} {rs : List Req} {is : List Ind}
+    (h : evalReqs t id lvl counts rs = .ok (t', is)) :
+    ∃ invs : List Inv, t'.log = t.log ++ invs ∧ ∀ i ∈ invs, i.deme = id ∧ (⟨i.x, i.v⟩ : Ind) ∈ is := by
+  induction rs generalizing t is with
+  | nil =>
+    simp only [evalReqs, Except.ok.injEq, Prod.mk.injEq] at h
+    obtain ⟨rfl, rfl⟩ := h
+    exact ⟨[], by simp, by simp⟩
+  | cons r rs ih =>
+    simp only [evalReqs, bind, Except.bind] at h
+    split at h
+    · simp at h
+    · rename_i p hp
+      obtain ⟨t1, i1⟩ := p
+      split at h
+      · simp at h
+      · rename_i q hq
+        obtain ⟨t2, is2⟩ := q
+        simp only [pure, Except.pure, Except.ok.injEq, Prod.mk.injEq] at h
+        obtain ⟨rfl, rfl⟩ := h
+        obtain ⟨invs2, hl2, hm2⟩ := ih hq
+        obtain ⟨invs1, hl1, hm1⟩ := evalReq_logged hp
+        refine ⟨invs1 ++ invs2, by rw [hl2, hl1, List.append_assoc], ?_⟩
+        intro i hi
+        rcases List.mem_append.mp hi with hi | hi
+        · exact ⟨(hm1 i hi).1, by rw [(hm1 i hi).2]; simp⟩
+        · exact ⟨(hm2 i hi).1, List.mem_cons_of_mem _ (hm2 i hi).2⟩
+
 end Tree
 
 namespace Tree
@@ -309,6 +362,12 @@ structure CreateEffect (t t' : T) (parent : Option Deme) (seed : Option Ind) : P
     ∃ invs : List Inv, t'.log = t.log ++ invs ∧ invs.length ≤ d.counter ∧
       (∀ i ∈ invs, i.level = d.level ∧ ∃ lc, t.cfg.levels[d.level]? = some lc ∧ inBox lc.box i.x = true) ∧
       (t'.refused = false → invs.length = d.counter)
+  /-- the new deme's initial population does not forget anything evaluated for it (population engines) -/
+  observed : ∀ d g, t'.demes.getLast? = some d → d.hist = [[g]] → ∀ lc, t.cfg.levels[d.level]? = some lc →
+    lc.engine ≠ .localOpt → observedOk t.cfg.maximize g.evald g.inds = true
+  /-- what was logged while the deme was built was evaluated for its initial population -/
+  logged : ∃ invs : List Inv, t'.log = t.log ++ invs ∧ ∀ d g, t'.demes.getLast? = some d → d.hist = [[g]] →
+    ∀ i ∈ invs, i.deme = d.id ∧ (⟨i.x, i.v⟩ : Ind) ∈ g.evald
 
 theorem addChild_forall2 (pid cid : Id) (ds : List Deme) :
     List.Forall₂ SameBC ds (updFirst pid (fun x => { x with children := x.children ++ [cid] }) ds) := by
@@ -320,12 +379,33 @@ theorem addChild_forall2 (pid cid : Id) (ds : List Deme) :
     · exact .cons ⟨_, rfl⟩ (forall2_sameBC_refl ds)
     · exact .cons (SameBC.refl d) ih
 
+theorem initPopOk_shape {mx : Bool} {lc : LevelCfg} {seed : Option Ind} {env : NewEnv} {ev : List Ind} {u : Unit}
+    (h : initPopOk mx lc seed env ev = .ok u) : initPopShape lc seed env ev = .ok () := by
+  unfold initPopOk at h
+  split at h
+  · simp at h
+  · rename_i u' hs
+    cases u'
+    exact hs
+
+theorem initPopOk_observed {mx : Bool} {lc : LevelCfg} {seed : Option Ind} {env : NewEnv} {ev : List Ind} {u : Unit}
+    (h : initPopOk mx lc seed env ev = .ok u) (hl : lc.engine ≠ .localOpt) : observedOk mx ev env.pop = true := by
+  unfold initPopOk at h
+  split at h
+  · simp at h
+  · split at h
+    · simp at h
+    · rename_i hc
+      have : (lc.engine != Engine.localOpt) = true := by simpa using hl
+      simpa [this] using hc
+
 /-- every member of an accepted initial population was evaluated while the deme was built —
 except a local deme's starting point, which is its seed -/
 theorem initPopOk_first {mx : Bool} {lc : LevelCfg} {seed : Option Ind} {env : NewEnv} {ev : List Ind} {u : Unit}
     (h : initPopOk mx lc seed env ev = .ok u) : ∀ i ∈ env.pop, ev.contains i = true ∨ seed = some i := by
   intro i hi
-  unfold initPopOk at h
+  have h := initPopOk_shape h
+  unfold initPopShape at h
   split at h
   · split at h
     · split at h
@@ -363,7 +443,27 @@ theorem createDeme_effect {t t' : T} {parent : Option Deme} {seed : Option Ind} 
         obtain ⟨invs, hlog, hn, hp, hr⟩ := e.log
         have hd1 : t1.demes = t.demes := by
           have := e.demes; simpa [updFirst_bump_zero] using this
-        refine ⟨e.cfg, e.metaepoch, e.pc, e.gscSeen, e.refusedMono, by simp only [e.levels]; cases parent <;> rfl, ?_⟩
+        refine ⟨e.cfg, e.metaepoch, e.pc, e.gscSeen, e.refusedMono, by simp only [e.levels]; cases parent <;> rfl, ?_, ?obs, ?logd⟩
+        case logd =>
+          obtain ⟨invs', hl', hm'⟩ := evalReqs_logged hev
+          refine ⟨invs', hl', ?_⟩
+          intro d g hlast hhist i hi
+          simp only [List.getLast?_append, List.getLast?_singleton, Option.some_or, Option.some.injEq] at hlast
+          subst hlast
+          simp only [List.cons.injEq, and_true] at hhist
+          subst hhist
+          exact ⟨(hm' i hi).1, List.mem_append_left _ (hm' i hi).2⟩
+        case obs =>
+          rename_i hok
+          intro d g hlast hhist lc' hlc' hne
+          simp only [List.getLast?_append, List.getLast?_singleton, Option.some_or, Option.some.injEq] at hlast
+          subst hlast
+          simp only [List.cons.injEq, and_true] at hhist
+          subst hhist
+          simp only [] at hlc'
+          rw [hlc] at hlc'
+          cases hlc'
+          exact initPopOk_observed hok hne
         refine ⟨_, _, rfl, ?sbc, ?oldeq, rfl, ⟨_, rfl, ?first⟩, rfl, rfl, rfl, rfl, rfl, rfl, rfl, ⟨lc, hlc⟩, invs, hlog, ?_, ?_, ?_⟩
         case first =>
           rename_i hok
@@ -380,10 +480,11 @@ theorem createDeme_effect {t t' : T} {parent : Option Deme} {seed : Option Ind} 
           · -- a local deme may issue requests in the model only if `initPopOk` accepted: it requires none
             simp only [hl, beq_self_eq_true, ↓reduceIte]
             rename_i hok
+            have hok := initPopOk_shape hok
             cases seed with
-            | none => simp [initPopOk, hl] at hok
+            | none => simp [initPopShape, hl] at hok
             | some s =>
-              simp only [initPopOk, hl, beq_self_eq_true, ↓reduceIte] at hok
+              simp only [initPopShape, hl, beq_self_eq_true, ↓reduceIte] at hok
               split at hok
               · simp at hok
               · rename_i hc
@@ -403,10 +504,11 @@ theorem createDeme_effect {t t' : T} {parent : Option Deme} {seed : Option Ind} 
           by_cases hl : lc.engine = .localOpt
           · simp only [hl, beq_self_eq_true, ↓reduceIte]
             rename_i hok
+            have hok := initPopOk_shape hok
             cases seed with
-            | none => simp [initPopOk, hl] at hok
+            | none => simp [initPopShape, hl] at hok
             | some s =>
-              simp only [initPopOk, hl, beq_self_eq_true, ↓reduceIte] at hok
+              simp only [initPopShape, hl, beq_self_eq_true, ↓reduceIte] at hok
               split at hok
               · simp at hok
               · rename_i hc
